@@ -6,7 +6,14 @@ import os as _os
 RUNNER = _os.environ.get('MAMBACHECK_BIN', './run.sh')
 REPO = _os.environ.get('RECHECK_REPO', '/repo')  # a scratch worktree at /repo's HEAD (then MAMBACHECK_BIN must be the checker binary)
 import json, os, re, subprocess, glob, sys
+ALLBIN = _os.environ.get('MAMBACHECK_ALL', '')
 env = dict(os.environ, MAMBA_REPO=REPO, GOFLAGS='-mod=mod', GOPROXY='off', GOSUMDB='off', GOTOOLCHAIN='local')
+if ALLBIN:
+    env['VERIF_DIR'] = os.environ.get('SCRATCH_VERIF', '/tmp/ev-scratch')
+    os.makedirs(env['VERIF_DIR'] + '/evidence/violations', exist_ok=True)
+    env['MAMBACHECK_CTL'] = '/verif/checker/testdata/ctl'
+    import shutil as _sh
+    _sh.copy('/verif/known_findings.txt', env['VERIF_DIR'] + '/known_findings.txt')
 def sh(cmd, cwd):
     p = subprocess.run(cmd, shell=True, cwd=cwd, env=env, capture_output=True, text=True)
     return p.returncode, p.stdout + p.stderr
@@ -31,8 +38,23 @@ for d in sorted(glob.glob('/verif/seeded/*/')):
     sh(f'git apply {"--3way " if threeway else ""}{d}patch.diff', REPO)
     others = []
     try:
-        rc_chk, out_chk = sh(f'{RUNNER} {prop} quick', '/verif')
-        if '--all' in sys.argv:
+        if ALLBIN:
+            rc_all, out_all = sh(f'{ALLBIN} ALL quick', '/verif')
+            chunks, chunk = {}, []
+            for l in out_all.splitlines():
+                if l.startswith('EXIT '):
+                    _, p2, code = l.split()
+                    chunks[p2] = (int(code), '\n'.join(chunk) + '\n')
+                    chunk = []
+                else:
+                    chunk.append(l)
+            rc_chk, out_chk = chunks.get(prop, (2, out_all))
+            for p2, (rc2, out2) in chunks.items():
+                if p2 != prop and rc2 == 1:
+                    others.append({'property': p2, 'finding_keys': re.findall(r'\[([A-Z-]+:.*?)\] ', out2)[:3]})
+        else:
+          rc_chk, out_chk = sh(f'{RUNNER} {prop} quick', '/verif')
+          if '--all' in sys.argv:
             for p2 in ALLP:
                 if p2 == prop: continue
                 rc2, out2 = sh(f'{RUNNER} {p2} quick', '/verif')
